@@ -31,7 +31,7 @@ ASSUMPTIONS = ['excluded by construction (counted): plain re-linking of an objec
 BUDGET = {'quick': {'examples': 7000, 'workers': 8},
           'thorough': {'examples': 100000, 'workers': 16}}
 
-KINDS = ['fs', 'fs', 'fs', 'fs-nogc', 'mapping', 'demo']
+KINDS = ['fs', 'fs', 'fs', 'fs-nogc', 'fs-nokeep', 'mapping', 'demo']
 
 
 def strategy(tier):
@@ -186,7 +186,7 @@ def blob_strategy(tier):
     phased = st.tuples(i, d, d, st.booleans(), st.integers(0, 8), st.lists(st.one_of(*[mk(k) for k in mix]).map(list), max_size=4)).map(
         lambda t: [['write', t[0], 'w', t[1]], ['commit'], ['write', t[0], 'a', t[2]], ['commit'], ['undo2']]
         + ([['write', t[0], 'a', t[1]], ['commit']] if t[3] else []) + [['pack', t[4]], ['read', t[0]], ['observe', True]] + t[5])
-    return st.fixed_dictionaries({'mode': st.just('blob'), 'kind': st.sampled_from(['bmap', 'fs', 'fs']),
+    return st.fixed_dictionaries({'mode': st.just('blob'), 'kind': st.sampled_from(['bmap', 'bmap', 'fs', 'fs', 'fs', 'bfs', 'bfs', 'fs-nokeep', 'fs-nokeep']),
                                   'ops': st.one_of(free, free.map(list), phased)})
 
 
@@ -561,7 +561,10 @@ def _execute(case, rand):
     kind = case['kind']
     base_kind = 'fs' if kind.startswith('fs') else kind
     da, db_ = newdir(), newdir()
-    A = GraphRunner(base_kind, da, out, PROPERTY)       # packs
+    # ('fs-nokeep': the storage is told not to keep the old file and the old blobs after a pack)
+    a_kw = {'pack_keep_old': False} if kind == 'fs-nokeep' else {}
+    A = GraphRunner(base_kind, da, out, PROPERTY,       # packs
+                    storage=programs.make_storage('fs', da, **a_kw) if a_kw else None)
     rand.i = 0
     B = GraphRunner(base_kind, db_, out, PROPERTY)      # unpacked twin
     for r in (A, B):
@@ -623,7 +626,7 @@ def _execute(case, rand):
                 if stop is not None and len(A.model.txns) and A.model.txns[-1].tid > stop:
                     txn_after_pack = True
             elif k == 'reopen' and base_kind == 'fs':
-                A.reopen(op[1])
+                A.reopen(op[1], **a_kw)
                 B.reopen(op[1])
             elif k == 'pack':
                 # small indices = recent pack times (more history before the pack time)
@@ -679,6 +682,10 @@ def _execute(case, rand):
                                  'pack(gc=True) raised %s: %s' % (name, e))
                         break
                 clock.CLOCK.advance(1.0)
+                if a_kw and os.path.exists(os.path.join(da, 'Data.fs.old')):
+                    out.fail((PROPERTY, 'pack', 'old-file-kept-against-the-option'),
+                             'pack_keep_old=False: Data.fs.old exists after pack (%s)' % ('completed' if packed_ok else 'failed'))
+                    break
                 if packed_ok:
                     # (a pack with garbage collection also does everything a pack without it does)
                     # ... and no transaction since)
